@@ -4,9 +4,9 @@ CONSTANTS
   Conns = {1}
   HsKinds = {"valid", "garbage", "replayC", "replayS"}
   TgtKinds = {"ok", "refuse", "deny"}
-  MaxC = 3
-  MaxT = 3
-  MaxTok = 7
+  MaxC = 2
+  MaxT = 2
+  MaxTok = 6
   AllowBad = TRUE
   AllowSplit = FALSE
   AllowRst = TRUE
